@@ -34,8 +34,19 @@ func protocolGoroutines() (int, string) {
 	for _, g := range strings.Split(string(buf), "\n\n") {
 		if strings.Contains(g, "rdpgw/cmd/rdpgw/protocol.") {
 			n++
-			if first == "" || strings.Contains(g, "protocol.forward") {
-				first = g
+			// a deterministic representative: the lexically smallest innermost frame
+			fn := ""
+			for _, ln := range strings.Split(g, "\n") {
+				if strings.Contains(ln, "rdpgw/cmd/rdpgw/protocol.") {
+					fn = strings.TrimSpace(ln)
+					if i := strings.IndexByte(fn, '('); i > 0 {
+						fn = fn[:i]
+					}
+					break
+				}
+			}
+			if first == "" || fn < first {
+				first = fn
 			}
 		}
 	}
@@ -210,17 +221,8 @@ func runC11(c *Ctx) {
 		}
 		// 3. goroutines
 		if g1, st := protocolGoroutines(); g1 != g0 {
-			fn := "?"
-			for _, ln := range strings.Split(st, "\n") {
-				if strings.Contains(ln, "rdpgw/cmd/rdpgw/protocol.") {
-					fn = strings.TrimSpace(ln)
-					if i := strings.IndexByte(fn, '('); i > 0 {
-						fn = fn[:i]
-					}
-					break
-				}
-			}
-			add("goroutine-leak", fmt.Sprintf("%d goroutine(s) of the protocol package still alive (e.g. %s)", g1-g0, fn))
+			_ = st
+			add("goroutine-leak", fmt.Sprintf("%d goroutine(s) with a frame in the protocol package outlive the tunnel", g1-g0))
 		}
 		// 4. registry
 		if n := protocol.SimRegistrySize(); n > 0 {
@@ -230,7 +232,7 @@ func runC11(c *Ctx) {
 		m1 := c.W.Metrics("10.250.0.1:50001")
 		for _, k := range []string{"rdpgw_websocket_connections", "rdpgw_legacy_connections"} {
 			if m1[k] != m0[k] {
-				add("gauge:"+k, fmt.Sprintf("%s is %g, was %g before the tunnel", k, m1[k], m0[k]))
+				add("gauge:"+k, fmt.Sprintf("%s changed by %+g across the tunnel's life", k, m1[k]-m0[k]))
 			}
 		}
 	}
